@@ -71,15 +71,17 @@ def k2():
 
 
 def k3(limits):
-    """2 racks x 2 servers, uniform capacity, affinity limits."""
+    """2 pods / 3 racks / 4 servers, uniform capacity, affinity limits."""
     return {
-        'buckets': [('rack:0', None, 'rack'), ('rack:1', None, 'rack')],
+        'buckets': [('pod:0', None, 'pod'), ('pod:1', None, 'pod'),
+                    ('rack:0', 'pod:0', 'rack'), ('rack:1', 'pod:0', 'rack'),
+                    ('rack:2', 'pod:1', 'rack')],
         'partitions': ['_default'],
         'servers': {
             's0': {'parent': 'rack:0', 'variants': [{'cap': [10, 10, 10]}]},
             's1': {'parent': 'rack:0', 'variants': [{'cap': [10, 10, 10]}]},
             's2': {'parent': 'rack:1', 'variants': [{'cap': [10, 10, 10]}]},
-            's3': {'parent': 'rack:1', 'variants': [{'cap': [10, 10, 10]}]},
+            's3': {'parent': 'rack:2', 'variants': [{'cap': [10, 10, 10]}]},
         },
         'allocs': {'a': {'partition': '_default', 'variants': [{'rank': 100}]}},
         'templates': {
